@@ -254,4 +254,13 @@ def rxExpires (n : Nat) (cost : Int) : Option Bool :=
   else if (rxUpper n : Int) + 100 * regexpStepsPerTick < (cost - 100) * regexpStepsPerTick then some false
   else none
 
+/-- unique_mapping (array, f) (f_unique_mapping, lib/lpc/mapping.c; fix 115d78e): one key per distinct result of the callback,
+    `if (numkeys > MAX) mapping_too_large ()` before the mapping is built (it is filled without find_for_insert) -/
+def uniqueMapping (n groups : Nat) (limit : Int) : SzR :=
+  let keys := min groups n
+  if (keys : Int) > limit then .err else .ok keys
+
+/-- the same before the fix: no test -/
+def uniqueMappingOld (n groups : Nat) : SzR := .ok (min groups n)
+
 end NV.C04
